@@ -38,3 +38,33 @@ func TestKnown_FSCacheHitUnverified(t *testing.T) {
 		t.Errorf("finding %s reproduces but is not listed as known: %v", id, err)
 	}
 }
+
+// TestKnown_ChunkCachedWhileUnverified re-establishes the recorded finding with a fixed history: the TOC served
+// (and pinned by the digest used for Verify) records a wrong digest for one chunk; the layer is first used with
+// SkipVerify and the file is read, then Verify succeeds and the file is read again.
+func TestKnown_ChunkCachedWhileUnverified(t *testing.T) {
+	const id = "C01-chunk-cached-while-unverified"
+	c := Case{
+		Archive: tarmodel.Archive{Entries: []tarmodel.Entry{
+			{Name: "a", Type: "reg", Mode: 0o644, MTime: 1600000000, Size: 3, Seed: 3},
+			{Name: "zz-data", Type: "reg", Mode: 0o644, MTime: 1600000000, Size: 3, Seed: 99},
+		}},
+		Opts:  esgzbuild.Opts{Compression: "gzip", Level: 1, ChunkSize: 1, Workers: 1},
+		Cfg:   fullstack.Config{Store: "memory", FSCache: "memory", HTTPCache: "directory", LRUEntries: 1, MaxFds: 1, SyncAdd: true, Direct: true},
+		Fault: Fault{Kind: "toc-chunkdigest", A: 4, B: 1, Via: "registry"},
+		Steps: []Step{{Op: "skip"}, {Op: "readall", File: 0}, {Op: "readall", File: 1}, {Op: "verify-alt"}, {Op: "readall", File: 0}, {Op: "readall", File: 1}},
+	}
+	ev := &pbt.Ev{}
+	err := run(c, ev)
+	reproduced := err != nil || ev.Excluded(id) > 0
+	detail := "the chunk cached during the unverified phase was not served after Verify"
+	if err != nil {
+		detail = err.Error()
+	} else if reproduced {
+		detail = "after Verify succeeded the mount served a chunk, cached while it was skip-verified, that does not match the verified TOC"
+	}
+	pbt.Reproduced(id, reproduced, detail)
+	if err != nil && !pbt.Known(id) {
+		t.Errorf("finding %s reproduces but is not listed as known: %v", id, err)
+	}
+}
